@@ -100,6 +100,8 @@ def table_filler(kind, n):
 
 def rebuild(M, ent):
     """-> (command, sensor, block_len_bytes) in module copy M"""
+    if M.prefix == "goodwe":
+        M.modbus._modbus_checksum = const_crc
     if ent["kind"] == "setting":
         key = (M.prefix, "setting", repr(sorted(ent["cfg"].items())))
         if key not in _DISCOVER_CACHE:
